@@ -593,6 +593,12 @@ fn boundary(ctx: &Ctx, partners: &[ObjectFile], r: &mut Rng) {
         mk(&[block(0x3000, 1), label(b"FOO", 0, 1, 0), rel(0x2FFF, b"FOO")]), mk(&[label(b"FOO", 0, 1, 0), rel(0x5000, b"FOO")]),
         mk(&[block(0x3000, 4), block(0x3002, 0), label(b"FOO", 0, 1, 0), rel(0x3003, b"FOO")]),
         mk(&[block(0xFFFF, 3), label(b"FOO", 0, 1, 0), rel(0, b"FOO")]), mk(&[rel(0x5000, b"FOO")]),
+        // an empty block strictly inside a partner's block, at or below one of its relocation entries, in a file that
+        // defines the label the partner declares external (partner 1: block x5000..x5004, FOO at x5001/x5002;
+        // partner 5: block x0000..x0002, G0 at x0000, BAR at x0001)
+        mk(&[block(0x5001, 0), block(0x6100, 1), label(b"FOO", 0x6100, 0, 0)]), mk(&[block(0x5002, 0), block(0x6100, 1), label(b"FOO", 0x6100, 0, 0)]),
+        mk(&[block(0x5000, 0), block(0x6100, 1), label(b"FOO", 0x6100, 0, 0)]), mk(&[block(0x0001, 0), block(0x6100, 2), label(b"BAR", 0x6100, 0, 0), label(b"G0", 0x6101, 0, 0)]),
+        mk(&[block(0x0000, 0), block(0x6100, 2), label(b"BAR", 0x6100, 0, 0), label(b"G0", 0x6101, 0, 0)]), mk(&[block(0x5003, 0), label(b"FOO", 0x5003, 0, 0)]),
         mk(&[label(b"\xff", 0, 0, 0)]), mk(&[label(b"", 0, 0, 0)]), mk(&[src(b"\xe2\x82")]), mk(&[src(b"a"), src(b"b\n")]),
         mk(&[vec![1u8, 0, 0, 0, 0, 0, 0, 0, 0, 0, 0, 0, 255, 255, 255, 255, 255, 255, 255, 255]]), mk(&[vec![5u8]]), mk(&[vec![0u8, 0, 0, 1]]),
     ];
